@@ -580,6 +580,16 @@ func (env *specEnv) local(name string) (SV, bool) {
 	}
 	var best ssa.Value
 	bestDepth, bestIdx := -1, -1
+	// a variable that lives in a cell (captured by a closure or address-taken) always denotes the cell's content
+	for _, c := range cands {
+		if a, ok := c.(*ssa.Alloc); ok && a.Comment == name {
+			if _, defined := e.vals[a]; defined && (env.atBlock == nil || a.Block().Dominates(env.atBlock)) {
+				elem := a.Type().(*types.Pointer).Elem()
+				l := e.refLoc(e.val(a).T, elem)
+				return SV{T: e.load(env.cur, l), Sort: e.sortOf(elem), GT: elem}, true
+			}
+		}
+	}
 	for _, c := range cands {
 		var blk *ssa.BasicBlock
 		idx := 0
